@@ -15,11 +15,11 @@ def bound : Loop → Nat
 /-- with at most one pausing thread besides the loop, a pause send always finds room -/
 def Inv (s : St) : Prop := pausers s ≤ 1 ∧ s.pause + pausers s ≤ bound s.loop
 
-theorem inv_init (subscribes forgets stale reconnects nsubs : Nat) (h : forgets + stale + reconnects ≤ 1) :
-    Inv (init subscribes forgets stale reconnects nsubs) := by
+theorem inv_init (subscribes forgets stale staleD reconnects nsubs : Nat)
+    (h : forgets + stale + staleD + reconnects ≤ 1) :
+    Inv (init subscribes forgets stale staleD reconnects nsubs) := by
   have := caps.2.2
-  simp only [Inv, init, pausers, bound, this]
-  simp
+  simp only [Inv, init, pausers, bound, this, Mux.n]
   omega
 
 theorem inv_step {s s' : St} {l : Label} (hi : Inv s) (h : step s l = some s') : Inv s' := by
@@ -35,7 +35,7 @@ theorem inv_step {s s' : St} {l : Label} (hi : Inv s) (h : step s l = some s') :
          simp only [Option.some.injEq] at h
          subst h
          simp only [Inv, pausers, bound]
-         simp_all [bound]
+         simp_all [bound, Mux.n]
          try omega)
 
 theorem inv_reachable {s₀ s : St} (h0 : Inv s₀) (hr : Reachable s₀ s) : Inv s := by
@@ -47,11 +47,21 @@ theorem canStep_of {s : St} (l : Label) (h : (step s l).isSome = true) : canStep
   simp only [canStep, List.any_eq_true]
   exact ⟨l, by cases l <;> simp [Label.all], h⟩
 
+/-- whoever holds subMux across its pause send can move when pausech has room (and a
+    holder with a deadline can always give up) -/
+theorem holder_moves {s : St} (hm : s.mux ≠ .free) (hp : s.pause < pauseCap) : canStep s = true := by
+  cases hmx : s.mux with
+  | free => exact absurd hmx hm
+  | forgetSending => exact canStep_of .fgSendPause (by simp [step, hmx, hp])
+  | forgetSendingD => exact canStep_of .fgGiveUp (by simp [step, hmx])
+
 theorem progress {s : St} (hi : Inv s) : canStep s = true ∨ atRest s = true := by
   obtain ⟨h1, h2⟩ := hi
   have hc := caps.1
   have hr := caps.2.1
   simp only [pausers] at h1 h2
+  have hmn : s.mux ≠ .free → s.mux.n = 1 := by
+    intro h; cases hmx : s.mux <;> simp_all [Mux.n]
   cases hl : s.loop
   · -- sel
     by_cases a : 0 < s.resume
@@ -68,41 +78,52 @@ theorem progress {s : St} (hi : Inv s) : canStep s = true ∨ atRest s = true :=
     · exact Or.inl (canStep_of .pausedTakePause (by simp [step, hl, b]))
     have hp : s.pause = 0 := by omega
     have hre : s.resume = 0 := by omega
-    by_cases m : s.mux = .forgetSending
-    · exact Or.inl (canStep_of .fgSendPause (by simp [step, m, hp, hc]))
-    have mf : s.mux = .free := by cases hm : s.mux <;> simp_all
+    by_cases m : s.mux = .free
+    case neg => exact Or.inl (holder_moves m (by omega))
     by_cases c : 0 < s.subSend
     · exact Or.inl (canStep_of .subSendResume (by simp [step, c, hre, hr]))
     by_cases d : 0 < s.subLock
-    · exact Or.inl (canStep_of .subRegister (by simp [step, d, mf]))
+    · exact Or.inl (canStep_of .subRegister (by simp [step, d, m]))
     by_cases e : 0 < s.fgStart
     · by_cases n : s.nsubs - 1 = 0
-      · exact Or.inl (canStep_of .fgLock (by simp [step, e, mf, n]))
-      · exact Or.inl (canStep_of .fgLock (by simp [step, e, mf, n]))
+      · exact Or.inl (canStep_of .fgLock (by simp [step, e, m, n]))
+      · exact Or.inl (canStep_of .fgLock (by simp [step, e, m, n]))
     by_cases f : 0 < s.fgStale
     · by_cases n : s.nsubs = 0
-      · exact Or.inl (canStep_of .fgStaleLock (by simp [step, f, mf, n]))
-      · exact Or.inl (canStep_of .fgStaleLock (by simp [step, f, mf, n]))
+      · exact Or.inl (canStep_of .fgStaleLock (by simp [step, f, m, n]))
+      · exact Or.inl (canStep_of .fgStaleLock (by simp [step, f, m, n]))
+    by_cases f' : 0 < s.fgStaleD
+    · by_cases n : s.nsubs = 0
+      · exact Or.inl (canStep_of .fgStaleDLock (by simp [step, f', m, n]))
+      · exact Or.inl (canStep_of .fgStaleDLock (by simp [step, f', m, n]))
     by_cases g : 0 < s.monPause
     · exact Or.inl (canStep_of .monSendPause (by simp [step, g, hp, hc]))
     by_cases k : 0 < s.monResume
     · exact Or.inl (canStep_of .monSkipResume (by simp [step, k]))
     right
-    simp [atRest, hl, mf]
+    simp [atRest, hl, m]
     omega
   · -- pubStart
-    by_cases m : s.mux = .forgetSending
-    · have : s.pause = 0 := by simp [m, hl, bound] at h2; omega
-      exact Or.inl (canStep_of .fgSendPause (by simp [step, m, this, hc]))
-    · have mf : s.mux = .free := by cases hm : s.mux <;> simp_all
-      exact Or.inl (canStep_of .pubStart (by simp [step, hl, mf]))
+    by_cases m : s.mux = .free
+    · exact Or.inl (canStep_of .pubStart (by simp [step, hl, m]))
+    · have := hmn m
+      have : s.pause = 0 := by simp [hl, bound] at h2; omega
+      exact Or.inl (holder_moves m (by omega))
   · exact Or.inl (canStep_of .respOk (by simp [step, hl]))
   · -- wantLock
-    by_cases m : s.mux = .forgetSending
-    · have : s.pause = 0 := by simp [m, hl, bound] at h2; omega
-      exact Or.inl (canStep_of .fgSendPause (by simp [step, m, this, hc]))
-    · have mf : s.mux = .free := by cases hm : s.mux <;> simp_all
-      exact Or.inl (canStep_of .handle (by simp [step, hl, mf]))
+    by_cases m : s.mux = .free
+    · exact Or.inl (canStep_of .handle (by simp [step, hl, m]))
+    · have := hmn m
+      have : s.pause = 0 := by simp [hl, bound] at h2; omega
+      exact Or.inl (holder_moves m (by omega))
+  · -- wantLockD
+    by_cases m : s.mux = .free
+    · exact Or.inl (canStep_of .handleD (by simp [step, hl, m]))
+    · have := hmn m
+      have : s.pause = 0 := by simp [hl, bound] at h2; omega
+      exact Or.inl (holder_moves m (by omega))
+  · -- notifying: the application takes the notification
+    exact Or.inl (canStep_of .appTake (by simp [step, hl]))
   · -- selfPause
     have : s.pause < 2 := by simp [hl, bound] at h2; omega
     exact Or.inl (canStep_of .selfPause (by simp [step, hl, hc, this]))
@@ -114,7 +135,7 @@ def InvNoStall (s : St) : Prop :=
   (s.loop = .paused → s.resume = s.subLock + s.nsubs)
 
 theorem noStall_init (n : Nat) : InvNoStall (started n) := by
-  simp [InvNoStall, started, pausers]
+  simp [InvNoStall, started, pausers, Mux.n]
 
 theorem noStall_step {s s' : St} {l : Label} (hi : InvNoStall s) (hl : l ≠ .respErr)
     (h : step s l = some s') : InvNoStall s' := by
@@ -122,11 +143,13 @@ theorem noStall_step {s s' : St} {l : Label} (hi : InvNoStall s) (hl : l ≠ .re
   simp only [pausers] at h2
   have hf : s.fgStart = 0 := by omega
   have hs : s.fgStale = 0 := by omega
+  have hsd : s.fgStaleD = 0 := by omega
   have hm : s.monPause = 0 := by omega
   have hx : s.mux = .free := by
     cases hmx : s.mux
     · rfl
-    · simp [hmx] at h2
+    · simp [hmx, Mux.n] at h2
+    · simp [hmx, Mux.n] at h2
   cases l <;> simp only [step] at h <;> split at h <;>
     first
     | (simp at h; done)
@@ -137,7 +160,7 @@ theorem noStall_step {s s' : St} {l : Label} (hi : InvNoStall s) (hl : l ≠ .re
          simp only [Option.some.injEq] at h
          subst h
          simp only [InvNoStall, pausers]
-         simp_all
+         simp_all [Mux.n]
          try omega)
 
 theorem noStall_reachable {n : Nat} {s : St} (hr : ReachableNoErr (started n) s) : InvNoStall s := by
@@ -150,7 +173,7 @@ theorem not_stalled_of_inv {s : St} (hi : InvNoStall s) : stalled s = false := b
   cases hst : stalled s
   · rfl
   · simp only [stalled, atRest, Bool.and_eq_true, decide_eq_true_eq] at hst
-    obtain ⟨⟨_, hsl, _, _, _, _, _, hlp, _, hre⟩, hn⟩ := hst
+    obtain ⟨⟨_, hsl, _, _, _, _, _, _, hlp, _, hre⟩, hn⟩ := hst
     have := h5 hlp
     omega
 
